@@ -631,8 +631,28 @@ func replay(cf *evid.CaseFile) error {
 	return err
 }
 
+// bigFirstUse: a column with more than 65,536 distinct values; all goroutines
+// make their first use of a FRESH index at the same moment, grouping by it
+// (whatever is built lazily per column on first use is built under contention
+// and takes long enough for the others to arrive meanwhile).
+func bigFirstUse(t *testing.T, n, goroutines int, oc fix.OpenCfg) {
+	spec := gen.DataSpec{Recipe: &gen.Recipe{N: n, Cols: []gen.ColSpec{
+		{Name: "u", Prefix: "r", Kind: gen.KUnique}, {Name: "g", Kind: gen.KMod, K: 3, Prefix: "p"}}}}
+	taut := model.Not(model.Eq("g", "none"))
+	c := &Case{Data: spec, Open: oc, Rounds: 1}
+	for g := 0; g < goroutines; g++ {
+		w := []Q{{Expr: taut, GroupBy: []string{"u"}}, {Expr: model.Eq("g", "p1"), GroupBy: []string{"u"}}}
+		if g%2 == 1 {
+			w[0], w[1] = w[1], w[0]
+		}
+		c.Work = append(c.Work, w)
+	}
+	run(t, c, "inprocess")
+}
+
 func TestQuick(t *testing.T) {
 	fix.Pinned(t, prop, replay)
+	bigFirstUse(t, 70001, 6, fix.OpenCfg{CacheCap: -1})
 	fix.Check(t, "rawcache", 60, func(rt *rapid.T) { runCache(rt, drawCacheCase(rt)) })
 	fix.Check(t, "inprocess", 30, func(rt *rapid.T) { run(rt, drawCase(rt, 5000, false), "inprocess") })
 	fix.Check(t, "server", 3, func(rt *rapid.T) { run(rt, drawCase(rt, 5000, true), "server") })
@@ -641,6 +661,9 @@ func TestQuick(t *testing.T) {
 func TestThorough(t *testing.T) {
 	if shard, _ := evid.Shard(); shard == 0 {
 		fix.Pinned(t, prop, replay)
+	}
+	if shard, _ := evid.Shard(); shard < 3 {
+		bigFirstUse(t, 70001, 4+4*shard, fix.OpenCfg{Preload: shard == 1, CacheCap: int64(shard-1) * (1 << 20)})
 	}
 	fix.Check(t, "rawcache", 300, func(rt *rapid.T) { runCache(rt, drawCacheCase(rt)) })
 	fix.Check(t, "inprocess", 150, func(rt *rapid.T) { run(rt, drawCase(rt, 20000, false), "inprocess") })
